@@ -99,7 +99,7 @@ theorem legacyPaths_plain (c : VCtx) (key r p : Str) (h1 : c.relShort ≠ sRHEL)
   have hr' : (if Str.endsWith r "/repodata".toList = true then r.take (r.length - 9) else r) = r := by
     rw [hr.norepodata]; rfl
   unfold legacyPathVals
-  simp only [isRhelMajor, b1, b2, Bool.false_and, Bool.false_eq_true, if_false, Option.getD_some, hr.noslash, hp.noslash,
+  simp only [orOpt, isRhelMajor, b1, b2, Bool.false_and, Bool.false_eq_true, if_false, Option.getD_some, hr.noslash, hp.noslash,
     orStr_some_ne hr.ne, orStr_some_ne hp.ne, hr', ite_self]
   cases c.arch == sSrc <;> rfl
 
